@@ -205,6 +205,9 @@ def _callable(it, fr, a, k):
 def _list(it, fr, a, k):
     if not a:
         return PyList()
+    r = _collect_hook(it, a, "list")
+    if r is not None:
+        return r
     if isinstance(a[0], SymStream):
         hook = it.spec.opaque_hooks.get("list_of_stream")
         if hook:
@@ -218,13 +221,32 @@ def _list(it, fr, a, k):
     return PyList(it.to_list(a[0]))
 
 
+def _collect_hook(it, a, kind):
+    """sidecar abstraction of list/tuple/set(<abstract stream>): hook(interp, stream, kind) -> value, or None"""
+    hook = it.spec.opaque_hooks.get("collect_stream")
+    if not hook or not a:
+        return None
+    src = a[0]
+    if isinstance(src, Opaque) and hasattr(src, "m_iter"):
+        src = src.m_iter(it)
+    if isinstance(src, SymStream):
+        return hook(it, src, kind)
+    return None
+
+
 @builtin("tuple")
 def _tuple(it, fr, a, k):
+    r = _collect_hook(it, a, "tuple")
+    if r is not None:
+        return r
     return tuple(it.to_list(a[0])) if a else ()
 
 
 @builtin("set")
 def _set(it, fr, a, k):
+    r = _collect_hook(it, a, "set")
+    if r is not None:
+        return r
     s = PySet()
     if a:
         # set iteration order is arbitrary in Python; the engine picks the reverse of the source order so that code
